@@ -574,6 +574,8 @@ Proof. vm_compute. repeat split. Qed.
      only, 3 the method captured when the closure was made);
      the descriptor's class test (0 `isinstance is None` - never true, 1 `instance is None`) and the look-up of its class
      branch; descr_class as probed on the running code; is int64 in the import list of tensorly/__init__.py?;
+     the look-up use_static_dispatch evaluates ONCE for _functions / _attributes of BackendManager and of
+     TenalgBackendManager (the model freezes the CALLING thread's current backend);
      what use_dynamic_dispatch installs for _functions / _attributes of BackendManager and of TenalgBackendManager
      (0 staticmethod(closure), 1 descriptor); tensorly.__getattr__ = backend.__getattribute__ ?;
      then for the modelled names (4 of tensorly.backend, 2 of tensorly.tenalg): in _functions?, in _attributes?, bound by
@@ -610,8 +612,9 @@ Fixpoint names_ok (nc : ncfg) (n : nat) (k : nat) (l : list nat) : option (list 
 
 Definition agree_dsrc (l : list nat) : bool :=
   match l with
-  | wrap :: curk :: getk :: instk :: clstest :: clsk :: dc :: tb :: bf :: ba :: tf :: ta :: modget :: l' =>
+  | wrap :: curk :: getk :: instk :: clstest :: clsk :: dc :: tb :: sbf :: sba :: stf :: sta :: bf :: ba :: tf :: ta :: modget :: l' =>
       lk_ok wrap && lk_ok curk && lk_ok getk && lk_ok instk &&
+      lk_ok sbf && lk_ok sba && lk_ok stf && lk_ok sta &&
       (if Nat.eqb clstest 1 then lk_ok clsk else Nat.eqb clstest 0) &&
       Bool.eqb (dec_bool dc) (Nat.eqb clstest 1) &&
       Nat.eqb bf 0 && Nat.eqb ba 1 && Nat.eqb tf 0 && Nat.eqb ta 1 && Nat.eqb modget 1 &&
@@ -623,18 +626,19 @@ Definition agree_dsrc (l : list nat) : bool :=
   end.
 
 (* the current tree's source; the repaired descriptor; NOT accepted: a closure that reads only the shared default, a
-   closure bound to the method it was made with, a function name bound like an attribute, a name table that differs from the model's (int64 bound or not must match the flag; trace bound at import) *)
+   closure bound to the method it was made with, use_static_dispatch freezing the shared default, a function name bound like an attribute, a name table that differs from the model's (int64 bound or not must match the flag; trace bound at import) *)
 Example dsrc_example :
   let tail := [0;1;0;1;1; 1;0;1; 1;0;0; 0;1;0; 0;1;1; 1;0;1; 1;0;0] in
-  agree_dsrc ([0;0;0;0;0;0;0;1] ++ tail) = true /\
-  agree_dsrc ([0;0;0;0;1;0;1;1] ++ tail) = true /\
-  agree_dsrc ([1;0;0;0;0;0;0;1] ++ tail) = false /\
-  agree_dsrc ([3;0;0;0;0;0;0;1] ++ tail) = false /\
-  agree_dsrc ([0;0;0;0;1;0;0;1] ++ tail) = false /\
-  agree_dsrc ([0;0;0;0;0;0;0;1] ++ [1;1;0;1;1; 1;0;1; 1;0;0; 0;1;0; 0;1;1; 1;0;1; 1;0;0]) = false /\
-  agree_dsrc ([0;0;0;0;0;0;0;1] ++ [0;1;0;1;1; 1;0;1; 1;0;0; 0;1;0; 0;1;0; 1;0;1; 1;0;0]) = false /\
-  agree_dsrc ([0;0;0;0;0;0;0;0] ++ [0;1;0;1;1; 1;0;1; 1;0;0; 0;1;0; 0;1;0; 1;0;1; 1;0;0]) = true /\
-  agree_dsrc ([0;0;0;0;0;0;0;1] ++ [0;1;0;1;1; 1;0;1; 1;0;1; 0;1;0; 0;1;1; 1;0;1; 1;0;0]) = false.
+  agree_dsrc ([0;0;0;0;0;0;0;1; 0;0;0;0] ++ tail) = true /\
+  agree_dsrc ([0;0;0;0;1;0;1;1; 0;0;0;0] ++ tail) = true /\
+  agree_dsrc ([1;0;0;0;0;0;0;1; 0;0;0;0] ++ tail) = false /\
+  agree_dsrc ([3;0;0;0;0;0;0;1; 0;0;0;0] ++ tail) = false /\
+  agree_dsrc ([0;0;0;0;1;0;0;1; 0;0;0;0] ++ tail) = false /\
+  agree_dsrc ([0;0;0;0;0;0;0;1; 1;0;0;0] ++ tail) = false /\
+  agree_dsrc ([0;0;0;0;0;0;0;1; 0;0;0;0] ++ [1;1;0;1;1; 1;0;1; 1;0;0; 0;1;0; 0;1;1; 1;0;1; 1;0;0]) = false /\
+  agree_dsrc ([0;0;0;0;0;0;0;1; 0;0;0;0] ++ [0;1;0;1;1; 1;0;1; 1;0;0; 0;1;0; 0;1;0; 1;0;1; 1;0;0]) = false /\
+  agree_dsrc ([0;0;0;0;0;0;0;0; 0;0;0;0] ++ [0;1;0;1;1; 1;0;1; 1;0;0; 0;1;0; 0;1;0; 1;0;1; 1;0;0]) = true /\
+  agree_dsrc ([0;0;0;0;0;0;0;1; 0;0;0;0] ++ [0;1;0;1;1; 1;0;1; 1;0;1; 0;1;0; 0;1;1; 1;0;1; 1;0;0]) = false.
 Proof. vm_compute. repeat split. Qed.
 
 Definition agree (c : case) : bool :=
